@@ -296,7 +296,7 @@ def main(argv=None):
     batches = [specs[k:k + per] for k in range(0, len(specs), per)]
     summaries = []
     harness_errors = []
-    wall_cap = cfg.get("wall_cap", {"quick": 900, "thorough": 7200})[tier]
+    wall_cap = cfg.get("wall_cap", {"quick": 3600, "thorough": 8 * 3600})[tier]
     def _stop(summ):
         return a.fail_fast and any(v["prop"] == prop and match_known(known, prop, v) is None
                                    for v in summ.get("violations", []))
